@@ -79,7 +79,7 @@ def batch(prop, mod, a):
     run_timeout = int(tier_cfg.get("run_timeout", 300))
     for i in range(a.start, a.start + a.count):
         g = R.rng_for(a.seed, prop, i)
-        run = mod.generate(g, tier_cfg)
+        run = mod.generate(g, dict(tier_cfg, _index=i))
         # a hang inside the harness itself (outside any budgeted operation) must not stall the batch
         # silently: dump where it is and exit, which the orchestrator reports as a harness error
         sys.stderr.write(f"[worker] run {i}\n") if os.environ.get("VERIF_TRACE_RUNS") else None
